@@ -260,6 +260,39 @@ def check_bucket(case):
     return len(out), bool(twice or sort_calls)
 
 
+def check_failing_lookup(case):
+    """ds[key] / ds[i] of an example whose evaluation FAILS: the user functions below run once for it, the failure
+    comes out, nothing is retried through another access path."""
+    import lazy_dataset
+    exc_t = {'KeyError': KeyError, 'TypeError': TypeError, 'NotImplementedError': NotImplementedError,
+             'ValueError': ValueError, 'IndexError': IndexError}[case['exc']]
+    calls = []
+
+    def f(x):
+        calls.append(x)
+        if x == 1:
+            raise exc_t('this example cannot be processed')
+        return x
+
+    ds = lazy_dataset.new({'a': 0, 'b': 1, 'c': 2}).map(f)
+    for t in case['tops']:
+        ds = {'items': lambda d: d.items(), 'map': lambda d: d.map(lambda x: x), 'copy': lambda d: d.copy(),
+              'slice': lambda d: d[::-1], 'cache': lambda d: d.cache(), 'catch_free': lambda d: d}[t](ds)
+    for access in ('b', 1 if 'slice' not in case['tops'] else 1):
+        del calls[:]
+        try:
+            ds[access]
+        except exc_t:
+            pass
+        except Exception as e:
+            raise Violation('failing-access-other-error', f'{case}: ds[{access!r}] raised {type(e).__name__}: {e}')
+        else:
+            raise Violation('failing-access-answered', f'{case}: ds[{access!r}] returned although the function failed')
+        if calls != [1]:
+            raise Violation('index-evaluated-twice|failing-example',
+                            f'{case}: ds[{access!r}] of the failing example ran the mapped function for {calls}')
+
+
 APPLY_TOPS = ['map', 'batch', 'prefetch1', 'catch', 'copy', 'batch_unbatch', 'local_shuffle', 'slice_none']
 
 
@@ -313,6 +346,9 @@ def check_apply(case):
 
 def replay(case):
     progcheck.setup_process()
+    if 'exc' in case and 'tops' in case:
+        check_failing_lookup(case)
+        return
     if 'tops' in case:
         check_apply(case)
     elif 'lengths' in case:
@@ -441,6 +477,18 @@ def run_shard(tier, idx, nshards, rec, known):
                             return [o0]
                         rec.case({'program': progs.show(node), 'mode': 'absent-key', 'arg': k, 'ast': node}, True,
                                  {'enumerated', 'mode:absent-key'}, size=progs.size(node))
+    if idx == 2 % nshards:
+        for exc in ('KeyError', 'TypeError', 'NotImplementedError', 'ValueError'):
+            for tops in ([], ['items'], ['map'], ['items', 'map'], ['copy', 'items'], ['cache'], ['map', 'items', 'copy']):
+                case = {'exc': exc, 'tops': tops}
+                try:
+                    check_failing_lookup(case)
+                except Violation as v:
+                    if known.match(v.sig):
+                        continue
+                    o0.violation = (case, v.sig, v.detail)
+                    return [o0]
+                rec.case(case, True, {'enumerated', 'failing-lookup'}, size=len(tops))
     if idx == 1 % nshards:
         # key iteration over a concatenation of filtered parts, every prefix length: demand part by part
         for nparts in (2, 3):
